@@ -30,6 +30,17 @@ def groups(n, seed):
                 {"prob": ps, "params": pk, "run": "B", "algkey": 2, "twin": "C10", "share_params_with": "A"},
                 {"prob": ps, "params": pk, "run": "C", "algkey": 2, "twin": "C10"}]})
             continue
+        if hist == 3 and i % 8 == 7:
+            # two solvers built on ONE problem object with automatic scalings computed at different points
+            from pygradflow.params import ScalingType
+            st = [ScalingType.GradJac, ScalingType.KKT, ScalingType.Nominal][(i // 8) % 3]
+            pks = dict(pk, scaling_type=st)
+            psx = ps if ps[0] not in ("infeasible", "unbounded") else ("repo", "hs71")
+            gs.append({"tag": "C10.sameproblem", "runs": [
+                {"prob": psx, "params": pks, "run": "A", "algkey": 1, "twin": "none", "scaling_point_shift": 0.75},
+                {"prob": psx, "params": pks, "run": "B", "algkey": 2, "twin": "C10", "same_problem_as": "A"},
+                {"prob": psx, "params": pks, "run": "C", "algkey": 2, "twin": "C10"}]})
+            continue
         runs = [first,
                 {"prob": ps, "params": pk, "run": "B", "algkey": 2, "twin": "C10", "same_solver_as": "A"},
                 {"prob": ps, "params": pk, "run": "C", "algkey": 2, "twin": "C10"},
